@@ -324,7 +324,14 @@ def rule_partition(report, prog):
     n += 1
     report.check(okk, 'C01-R4', key(rd.qname, 'reads continue at nlen_size + bytes so far, remaining size'), rd.loc(),
                  'Type 4 read loop no longer appends consecutive chunks')
-    for fn in ('_write_ndef_data', '_wipe_ndef_data'):
+    from . import t4model
+    f = prog.func('nfc.tag.tt4.Type4Tag.NDEF._write_ndef_data')
+    v = t4model.verdicts(prog)
+    n += 1
+    report.check(not v['fold'] and not v['final'], 'C01-R4', key(f.qname, 'next chunk starts where the previous one ended'), f.loc(),
+                 'Type 4 write does not leave NLEN + message in the file: %s' % '; '.join((v['fold'] + v['final'])[:2]),
+                 detail='folded over %d grid points' % len(t4model.GRID))
+    for fn in ('_wipe_ndef_data',):
         f = prog.func('nfc.tag.tt4.Type4Tag.NDEF.' + fn)
         n += 1
         okk = any(isinstance(l, ast.While) and [norm(s) for s in live(l.body)] == ['offset += self._update_binary(offset, data[offset:])']
